@@ -42,6 +42,8 @@ def run_history(front, framing, cfg, seq, delivery='whole'):
         unit, m = scenario.token(tok, i, cfg)
         f = scenario.frame(framing, unit, TIDS[i % 3], m)
         script = [f]
+        if delivery == 'debris-first' and servers.FRONTS[front][0] != 'stream':
+            script = [f[:max(1, len(f) // 2)], f]          # a truncated datagram, then the whole request from the same peer
         if delivery == 'split-idle' and servers.FRONTS[front][0] == 'stream':
             # the request arrives in two reads after the line has been idle (the blocking front-ends see a read
             # time-out first); a datagram front-end always gets the whole request
@@ -55,6 +57,35 @@ def run_history(front, framing, cfg, seq, delivery='whole'):
     esc = [type(e).__name__ for _, e in srv.escaped]
     srv.shutdown()
     return tuple(outs), d, tuple(esc)
+
+
+def compare(acc, framing, cfg, seq, delivery, fronts, whole_base):
+    single, units, ign = cfg.single, cfg.units, cfg.ignore
+    res = [(f, run_history(f, framing, cfg, seq, delivery)) for f in fronts]
+    acc.inc('transitions', len(seq) * len(fronts))
+    acc.inc('evaluations')
+    base_f, base = res[0]
+    first = base
+    if whole_base is not None:
+        res = [('whole-delivery', whole_base)] + res          # and the same bytes as when each request came in one read
+        base_f, base = res[0]
+    for f, r in res[1:]:
+        what = None
+        if r[0] != base[0]:
+            what = 'bytes-differ'
+        elif r[1] != base[1]:
+            what = 'store-differs'
+        elif r[2] != base[2]:
+            what = 'escape-differs'
+        if what:
+            i = next((j for j in range(len(seq)) if r[0][j] != base[0][j]), len(seq) - 1)
+            acc.violation('C17/%s~%s/%s/%s/%s/%s' % (base_f, f, framing, what, cfg.mode, seq[i]) + ('' if delivery == 'whole' else '/' + delivery),
+                          dict(part='equiv', framing=framing, fronts=[base_f, f], cfg=[single, list(units), False, ign], seq=list(seq),
+                               **({} if delivery == 'whole' else dict(delivery=delivery))),
+                          '%s vs %s: %r / %r' % (base_f, f, [x.hex() for x in base[0][i]], [x.hex() for x in r[0][i]]), framing)
+    if any(len(o) for o in base[0]):
+        acc.inc('histories_with_replies')
+    return first
 
 
 def shard_equiv(args):
@@ -75,31 +106,25 @@ def shard_equiv(args):
                     if k % parts != part:
                         continue
                     for delivery in (('whole', 'split-idle') if framing != 'tls' and n <= 2 else ('whole',)):
-                        res = [(f, run_history(f, framing, cfg, seq, delivery)) for f in fronts]
-                        acc.inc('transitions', len(seq) * len(fronts))
-                        acc.inc('evaluations')
-                        base_f, base = res[0]
-                        if delivery != 'whole':
-                            res = [('whole-delivery', whole_base)] + res          # and the same bytes as when each request came in one read
-                            base_f, base = res[0]
-                        else:
-                            whole_base = base
-                        for f, r in res[1:]:
-                            what = None
-                            if r[0] != base[0]:
-                                what = 'bytes-differ'
-                            elif r[1] != base[1]:
-                                what = 'store-differs'
-                            elif r[2] != base[2]:
-                                what = 'escape-differs'
-                            if what:
-                                i = next((j for j in range(len(seq)) if r[0][j] != base[0][j]), len(seq) - 1)
-                                acc.violation('C17/%s~%s/%s/%s/%s/%s' % (base_f, f, framing, what, cfg.mode, seq[i]) + ('' if delivery == 'whole' else '/' + delivery),
-                                              dict(part='equiv', framing=framing, fronts=[base_f, f], cfg=[single, list(units), False, ign], seq=list(seq),
-                                                   **({} if delivery == 'whole' else dict(delivery=delivery))),
-                                              '%s vs %s: %r / %r' % (base_f, f, [x.hex() for x in base[0][i]], [x.hex() for x in r[0][i]]), framing)
-                        if any(len(o) for o in base[0]):
-                            acc.inc('histories_with_replies')
+                        r0 = compare(acc, framing, cfg, seq, delivery, fronts, whole_base if delivery != 'whole' else None)
+                        if delivery == 'whole':
+                            whole_base = r0
+                    dg = [f for f in fronts if servers.FRONTS[f][0] != 'stream']
+                    if n <= 2 and len(dg) > 1:
+                        compare(acc, framing, cfg, seq, 'debris-first', dg, whole_base)
+            # a request whose handling raises: every connection-oriented front-end ends the conversation there, every
+            # datagram front-end goes on with the next datagram (compared within each family)
+            if framing != 'tls':
+                for n in (1, 2, 3):
+                    for seq in itertools.product(('S', 'R', 'W'), repeat=n):
+                        if 'S' not in seq:
+                            continue
+                        k += 1
+                        if k % parts != part:
+                            continue
+                        for fam in ([f for f in fronts if f.endswith('-tcp')], [f for f in fronts if f.endswith('-udp')]):
+                            if len(fam) > 1:
+                                compare(acc, framing, cfg, seq, 'whole', fam, None)
     acc.inc('states', k // parts)
     acc.add('nontrivial', ('equiv', framing))
     return acc
